@@ -431,7 +431,9 @@ namespace pika {
           : callback_(std::forward<CB>(cb))
           , state_(st.state_)
         {
-            if (state_) state_->add_callback(this);
+            // not registered (already executed, or stop not possible): nothing to
+            // deregister later
+            if (state_ && !state_->add_callback(this)) state_.reset();
         }
 
         template <typename CB,
@@ -442,7 +444,9 @@ namespace pika {
           : callback_(std::forward<CB>(cb))
           , state_(std::move(st.state_))
         {
-            if (state_) state_->add_callback(this);
+            // not registered (already executed, or stop not possible): nothing to
+            // deregister later
+            if (state_ && !state_->add_callback(this)) state_.reset();
         }
 
         // Effects: Unregisters the callback from the owned stop state, if any.
